@@ -99,9 +99,18 @@ def check(ctx):
     for pc, t, n in early:
         c = pc[-1]
         txt = ir.show(c[0], maxdepth=12)
-        if "numpy.diff(numpy.divide(" in txt and "results_turnout" in txt and ">= 0" in txt and "numpy.all" in txt:
+        diffs = [x for x in ir.walk(c[0]) if x[0] == "call" and x[1] == ("global", "numpy.diff") and x[2]]
+        if diffs and "results_turnout" in txt and ">= 0" in txt and "numpy.all" in txt:
             okc = (not c[1]) or txt.startswith("(not ")
-            kinds["monotone"] = (okc, t, n, txt)
+            # the test has to look at the turnout history ITSELF: the share of the final turnout (turnout / turnout[-1], written
+            # into a zero buffer where the final turnout is 0) is constant 0 for a history that ends with no votes, which then
+            # passes as monotone (500 -> 1000 -> 0)
+            raw = _colarr(diffs[0][2][0]) == "results_turnout"
+            kinds["monotone"] = (okc and raw, t, n, txt)
+            if okc and not raw:
+                ctx.ob("C17.R1.raw-turnout", f"{g.qualname}|monotonicity tested on the turnout itself", False, g.where(n),
+                       f"monotonicity is tested on {ir.show(diffs[0][2][0], maxdepth=3)[:120]}, which is identically 0 when the last version has no "
+                       f"votes: a history revised down to nothing at the end passes as monotone")
         elif "numpy.abs(" in txt and ".max() > 1" in txt and "results_dem" in txt and "results_gop" in txt and "results_weights" in txt:
             kinds["batch"] = (c[1], t, n, txt)
     for k, what in (("monotone", "re-scaled turnout not non-decreasing"), ("batch", "a batch margin outside [-1, 1]")):
